@@ -239,6 +239,14 @@ pub trait Check: Sync {
     fn assumptions(&self) -> Vec<String> {
         vec![]
     }
+    /// small workload executed under Miri (thorough tier only); empty = no Miri shard
+    fn miri_work(&self) -> Vec<WorkItem> {
+        vec![]
+    }
+}
+
+pub fn under_miri() -> bool {
+    cfg!(miri) || std::env::var("VERIF_MIRI").is_ok()
 }
 
 pub fn run_shard(check: &dyn Check, tier: Tier, seed: u64, shard: u64, nshards: u64, outdir: &Path) {
@@ -248,7 +256,8 @@ pub fn run_shard(check: &dyn Check, tier: Tier, seed: u64, shard: u64, nshards: 
     let mut sh = Shard::new(check.id(), tier, seed, shard, nshards, &workdir);
     sh.journal = std::fs::File::create(outdir.join(format!("shard_{shard}.journal"))).ok();
     check.shard_begin(&mut sh);
-    for item in check.work(tier) {
+    let items = if under_miri() { check.miri_work() } else { check.work(tier) };
+    for item in items {
         let mut n = shard;
         while n < item.count {
             sh.cur = CaseId { mode: item.mode.to_string(), n };
@@ -472,6 +481,9 @@ pub fn run_parent(check: &dyn Check, tier: Tier, seed: u64) -> i32 {
     }
     merged.distinct = all_distinct.len() as u64;
     drop(all_distinct);
+    if (tier == Tier::Thorough || std::env::var("VERIF_MIRI_FORCE").is_ok()) && !check.miri_work().is_empty() {
+        miri_stage(check, seed, &outdir, &mut merged);
+    }
     merged.inconclusive.extend(harness_errors);
     if merged.inconclusive.is_empty() || merged.violations.is_empty() {
         check.finalize(&mut merged, tier);
@@ -585,6 +597,87 @@ pub fn run_parent(check: &dyn Check, tier: Tier, seed: u64) -> i32 {
         tier.name(), evals, merged.distinct, known_hit.len(), nviol, merged.inconclusive.len(), t0.elapsed().as_secs_f64()
     );
     verdict
+}
+
+/// runs the check's small Miri workload in 4 interpreter processes and merges what they observed
+fn miri_stage(check: &dyn Check, seed: u64, outdir: &Path, merged: &mut Merged) {
+    let id = check.id();
+    let mdir = outdir.join("miri");
+    let _ = std::fs::create_dir_all(&mdir);
+    let n = 4u64;
+    let mut children = vec![];
+    for s in 0..n {
+        let log = std::fs::File::create(mdir.join(format!("miri_{s}.log"))).ok();
+        let mut cmd = std::process::Command::new("cargo");
+        cmd.args(["+nightly", "miri", "run", "--offline", "--target-dir", "/verif/target/miri", "--bin", "vcheck", "--"])
+            .arg(id)
+            .args(["--shard", &s.to_string(), "--nshards", &n.to_string(), "--tier", "quick", "--seed", &seed.to_string(), "--outdir"])
+            .arg(&mdir)
+            .current_dir(format!("{VERIF_DIR}/harness"))
+            .env("CARGO_NET_OFFLINE", "true")
+            .env("MIRIFLAGS", "-Zmiri-disable-isolation")
+            .env("VERIF_MIRI", "1")
+            .stdin(std::process::Stdio::null());
+        if let Some(l) = log {
+            if let Ok(l2) = l.try_clone() {
+                cmd.stdout(l2);
+            }
+            cmd.stderr(l);
+        }
+        match cmd.spawn() {
+            Ok(c) => children.push((s, c)),
+            Err(e) => merged.inconclusive.push(format!("cannot start cargo miri: {e}")),
+        }
+    }
+    let t0 = Instant::now();
+    for (s, mut c) in children {
+        let status = loop {
+            match c.try_wait() {
+                Ok(Some(st)) => break Some(st),
+                Ok(None) => {
+                    if t0.elapsed() > Duration::from_secs(3600) {
+                        let _ = c.kill();
+                        let _ = c.wait();
+                        break None;
+                    }
+                    std::thread::sleep(Duration::from_millis(500));
+                }
+                Err(_) => break None,
+            }
+        };
+        let log = std::fs::read_to_string(mdir.join(format!("miri_{s}.log"))).unwrap_or_default();
+        let res = mdir.join(format!("shard_{s}.json"));
+        match status {
+            None => merged.inconclusive.push(format!("Miri shard {s} exceeded 3600 s")),
+            Some(st) if !st.success() || !res.exists() => {
+                // an interpreter diagnostic (undefined behaviour, data race, leak) or a build problem
+                let diag = log.lines().find(|l| l.starts_with("error")).unwrap_or("").to_string();
+                if diag.contains("Undefined Behavior") {
+                    let sig = format!("{id}|miri|{}", util::trunc(&diag, 80));
+                    *merged.sig_counts.entry(sig.clone()).or_insert(0) += 1;
+                    merged.violations.push(Violation { sig, detail: util::trunc(&log[log.find("error").unwrap_or(0)..], 3000), case: CaseId { mode: "miri".into(), n: s }, extra: Value::Null });
+                } else {
+                    merged.inconclusive.push(format!("Miri shard {s} ended with {st:?}: {}", util::trunc(&diag, 300)));
+                }
+            }
+            Some(_) => {
+                if let Some(v) = std::fs::read(&res).ok().and_then(|b| serde_json::from_slice::<Value>(&b).ok()) {
+                    for (k, n) in v["counters"].as_object().cloned().unwrap_or_default() {
+                        *merged.counters.entry(format!("miri_{k}")).or_insert(0) += n.as_u64().unwrap_or(0);
+                    }
+                    for vi in v["violations"].as_array().cloned().unwrap_or_default() {
+                        let sig = vi["sig"].as_str().unwrap_or("").to_string();
+                        *merged.sig_counts.entry(sig.clone()).or_insert(0) += 1;
+                        merged.violations.push(Violation { sig, detail: vi["detail"].as_str().unwrap_or("").to_string(), case: CaseId { mode: vi["mode"].as_str().unwrap_or("miri").to_string(), n: vi["n"].as_u64().unwrap_or(0) }, extra: Value::Null });
+                    }
+                    for r in v["inconclusive"].as_array().cloned().unwrap_or_default() {
+                        merged.inconclusive.push(format!("miri: {}", r.as_str().unwrap_or("")));
+                    }
+                }
+            }
+        }
+    }
+    merged.extra.insert("miri".into(), json!({"interpreter_processes": n, "cases": merged.c("miri_cases"), "note": "no undefined behaviour reported on these executions; not a memory-safety claim"}));
 }
 
 pub fn run_replay(check: &dyn Check, path: &Path) -> i32 {
